@@ -441,15 +441,20 @@ func (mr MeshReader) Read(reader io.Reader) (*modeling.Mesh, error) {
 
 		// Read data
 		scanner := bufio.NewScanner(reader)
-		for i := int64(0); i < vertexElement.Count; i++ {
-			scanner.Scan()
+		for i := int64(0); i < vertexElement.Count; {
+			if !scanner.Scan() {
+				return nil, fmt.Errorf("can't read %q element: %w", mr.AttributeElement, scannerError(scanner))
+			}
 
 			text := scanner.Text()
-			if text == "" {
+			if strings.TrimSpace(text) == "" {
 				continue
 			}
 
 			contents := strings.Fields(text)
+			if len(contents) < len(vertexElement.Properties) {
+				return nil, fmt.Errorf("%q entry %d contains %d values, expected %d", mr.AttributeElement, i, len(contents), len(vertexElement.Properties))
+			}
 
 			for _, reader := range asciiReaders {
 				err = reader.Read(contents, i)
@@ -458,6 +463,7 @@ func (mr MeshReader) Read(reader io.Reader) (*modeling.Mesh, error) {
 				}
 			}
 
+			i++
 		}
 
 		// Read face data if present
@@ -542,6 +548,15 @@ func (mr MeshReader) Read(reader io.Reader) (*modeling.Mesh, error) {
 	return &mesh, nil
 }
 
+// scannerError returns the reason a scanner stopped scanning, treating a clean
+// EOF as unexpected since we still had data left to read
+func scannerError(scanner *bufio.Scanner) error {
+	if err := scanner.Err(); err != nil {
+		return err
+	}
+	return io.ErrUnexpectedEOF
+}
+
 func readAsciiFaceElement(element Element, scanner *bufio.Scanner) ([]int, []vector2.Float64, error) {
 	indicesProp := -1
 	texCordProp := -1
@@ -580,10 +595,12 @@ func readAsciiFaceElement(element Element, scanner *bufio.Scanner) ([]int, []vec
 
 	var i int
 	for i < int(element.Count) {
-		scanner.Scan()
+		if !scanner.Scan() {
+			return nil, nil, fmt.Errorf("can't read %q element: %w", element.Name, scannerError(scanner))
+		}
 		line := scanner.Text()
 
-		if line == "" {
+		if strings.TrimSpace(line) == "" {
 			continue
 		}
 
